@@ -402,7 +402,8 @@ P["C19"] = dict(
     claimed=True,
     technique="static analysis: element-wise value-graph comparison of every CoordinateSet impl with the documented "
               "defaults; dominance of dimension guards; sign-carrier rule for the sexagesimal conversions",
-    decides=["R-SIGN-CARRIER (odd form): in signum(x) * g(|x|) the magnitude g uses x through |x| only",
+    decides=["R-SUBSET-DIM: a container of d-dimensional tuples specialises xyz / set_xyz only for d >= 3 and xyzt / set_xyzt only for d >= 4",
+             "R-SIGN-CARRIER (odd form): in signum(x) * g(|x|) the magnitude g uses x through |x| only",
              "R-DIM-GUARD (checked writes): a default method that writes element by element through set_nth keeps its own index below dim()",
              "R-ADAPTER-FIXED: the fixed height / epoch of a 2D+ adapter is not changed by writing a tuple",
              "T-CONTAINER-DEFAULTS: every get_coord impl (2D/32-bit, 3D, 4D, height/epoch adapters) returns the stored "
@@ -422,7 +423,9 @@ P["C20"] = dict(
     claimed=True,
     technique="static analysis of bin kp's MIR: per-iteration typestate of the output loop, dominance of emptiness and "
               "length guards, boolean abstract interpretation of the direction logic, error-propagation provenance",
-    decides=["R-KP-DIMENSION: the output match dispatches on options.dimension.unwrap_or(input width) itself; the input width is measured after the comment was cut off",
+    decides=["R-KP-NO-PREROUND: transform() does no rounding arithmetic of its own on the results",
+             "R-KP-WIDTH-MONOTONE: the input width handed to transform is a running maximum, never reset inside the reading loops",
+             "R-KP-DIMENSION: the output match dispatches on options.dimension.unwrap_or(input width) itself; the input width is measured after the comment was cut off",
              "R-COMMENT-FIRST: kp handles the comment character by first-occurrence primitives only",
              "R-ONE-LINE: the output loop visits all operands in order and prints exactly one line per tuple",
              "R-EMPTY-INDEX: operands[0] is read only where the batch is known to be non-empty",
@@ -444,7 +447,8 @@ P["C14"] = dict(
     claimed=True,
     technique="static analysis: wiring rules between sibling implementations (contexts, adapt/axisswap/unitconvert, "
               "operators vs their parameter declarations) and exact series identities between tables of different origin",
-    decides=["R-POLAR-HEIGHT: cart's inverse and GeoCart::geographic both take the height on the polar axis as |Z| minus the semiminor axis",
+    decides=["R-OP-NO-REGISTRATION: instantiating does not change what names mean in either context",
+             "R-POLAR-HEIGHT: cart's inverse and GeoCart::geographic both take the height on the polar axis as |Z| minus the semiminor axis",
              "R-RF-ZERO-CONVENTION: Ellipsoid::named and TriaxialEllipsoid::named treat the table's spheres alike",
              "R-PROJ-PASSTHROUGH: Plain (which filters every definition through parse_proj) and Minimal see the same text for every Rust Geodesy definition",
              "R-TABLE-LOOKUP-EXACT: the biaxial and triaxial constructors use the same (equality) predicate over the ellipsoid table",
@@ -477,7 +481,8 @@ P["C14"] = dict(
 P["C16"] = dict(
     claimed=True,
     technique="static analysis: declaration/use agreement of parameter keys between gamuts, constructors and readers",
-    decides=["R-COMMENT-FIRST: the tokenizer cuts a line at its first `#` (no last-occurrence primitive is handed the comment character)",
+    decides=["T-SUBSCRIPTS: every subscript-digit replacement of normalize writes the same digit behind an underscore",
+             "R-COMMENT-FIRST: the tokenizer cuts a line at its first `#` (no last-occurrence primitive is handed the comment character)",
              "R-SIGN-CARRIER (suffix): every value parse_sexagesimal returns carries the sign of the hemisphere letter",
              "R-BADPARAM-ORDER: every Error::BadParam built by ParsedParameters::new has the gamut key first and the offending value second",
              "R-KEY-DECLARED: every key read by an operator (flags included) is declared in its gamut, stored by its "
@@ -530,7 +535,9 @@ P["C18"] = dict(
     technique="static analysis: ownership/typing argument made explicit: deep field-type walk (no interior "
               "mutability), who-may-write rule for the context tables, resolution-order dominance in Op::op, fresh "
               "handles, grid-cache access set, and compile-fail witnesses with compiling twins",
-    decides=["R-RESOLUTION-ORDER (same-name): user operators, macros and built-ins are all looked up under the operator name of the definition being instantiated",
+    decides=["R-OP-NO-REGISTRATION: Context::op of Minimal and Plain registers no resources or operators",
+             "R-PATH-ORDER: Plain::default pushes the local ./geodesy onto the search path before the per-user directory",
+             "R-RESOLUTION-ORDER (same-name): user operators, macros and built-ins are all looked up under the operator name of the definition being instantiated",
              "T-FREEZE: Op, OpDescriptor, ParsedParameters, BaseGrid, Ntv2Grid, Minimal, Plain contain no interior mutability",
              "R-WHO-WRITES: the operator/resource/constructor tables are written only by insert in op / "
              "register_resource / register_op; no Context method hands out a mutable or owned Op",
